@@ -84,9 +84,11 @@ def wall_case(rng, recurring=False, thorough=False):
                 op["period"] = 1000
                 op["dur"] = rng.choice([0, 25, 125, 325])
                 have_rec = True
+                if rng.random() < 0.35: op["fails"] = True       # the job's function returns an error every time
             else:
                 op["delay"] = rng.choice([50, 150, 150, 250, 350])
                 op["dur"] = rng.choice([0, 0, 25, 125])
+                if rng.random() < 0.15: op["fails"] = True
             ops.append(op)
         elif r < 0.85:
             ops.append({"t": t, "op": "rem", "id": rng.choice(ids)})
@@ -127,7 +129,9 @@ def wall_inflight(kind):
 
 
 def wall_directed():
-    return [wall_inflight(k) for k in ("rem", "add1", "addr")]
+    failing = {"kind": "c16.wall", "limit": 50, "pause_ms": 250, "horizon": 3350,
+               "ops": [{"t": 50, "op": "add", "id": "e", "period": 1000, "dur": 25, "fails": True}, {"t": 50, "op": "add", "id": "x", "delay": 150, "dur": 0, "fails": True}]}
+    return [wall_inflight(k) for k in ("rem", "add1", "addr")] + [failing]
 
 
 ACCS = ["a", "b", "c"]
